@@ -227,8 +227,50 @@ func armWatchdog(limit time.Duration, what string) {
 
 func disarmWatchdog() { wdStart.Store(0) }
 
+// reportDeadlock is called by the scheduler (from a task, inside the concurrent phase) when every runnable task
+// waits in a rewritten Lock / channel loop for something only another waiting or finished task could release
+// (oracle O9).  The process cannot go on - its locks stay taken - so the violation is emitted here and the
+// worker ends like after any other violation.
+var (
+	curSpec   *RunSpec
+	curRunIdx int
+)
+
+//go:norace
+func curOpOf(t int) int { return int(sCurOp[t]) }
+
+func reportDeadlock(me int, mask uint64) {
+	s := curSpec
+	if s == nil {
+		return
+	}
+	detail := "tasks waiting:"
+	for t := 0; t < len(s.Tasks); t++ {
+		if mask&(1<<uint(t)) != 0 {
+			i := curOpOf(t)
+			name := "?"
+			if i >= 0 && i < len(s.Tasks[t]) {
+				name = opNames[s.Tasks[t][i].K]
+			}
+			detail += fmt.Sprintf(" task %d in entry %d (%s);", t, i, name)
+		}
+	}
+	buf := make([]byte, 64<<10)
+	n := runtime.Stack(buf, true)
+	fmt.Fprintf(os.Stderr, "deadlock among the tasks of run %d (seed %d): %s\n%s\n", curRunIdx, s.Seed, detail, buf[:n])
+	_, _, _, _, _, _, rec, trunc, _ := schedStats()
+	v := Violation{Oracle: "O9", Clause: "concurrent calls return, as they do when run sequentially", World: "concurrent", Task: me, OpIdx: curOpOf(me),
+		Op: "Liveness", Kind: "deadlock", Verdict: true, Expected: "every call returns",
+		Actual: "every runnable task waits for a lock or channel that only another waiting or finished task can release", Detail: detail}
+	sp := *s
+	emit(&violEv{Ev: "violation", Run: curRunIdx, Seed: s.Seed, Violations: []Violation{v}, Spec: &sp, Recorded: rec, First: firstTask(), RecTrunc: trunc})
+	emit(endReport(curRunIdx + 1))
+	os.Exit(3)
+}
+
 func executeRun(s *RunSpec, runIdx int, racePath string) (doneEv, *violEv) {
 	t0 := time.Now() // wall time is reported only; it never feeds a decision
+	curSpec, curRunIdx, deadlockFn = s, runIdx, reportDeadlock
 	armWatchdog(watchdogLimit, fmt.Sprintf("run %d (seed %d)", runIdx, s.Seed))
 	defer disarmWatchdog()
 	var pre *world
